@@ -11,7 +11,8 @@ class _Kinds(dict):
         return dict.__getitem__(self, t.split(":")[0])
 
 
-KINDS = _Kinds({"C0": "KRaw", "C1": "KH1", "C2": "KH2", "C3": "KCut", "U": "KH1"})
+# Cr / Cf: dead on arrival (tcp / unix: reset resp. closed before the server accepts)
+KINDS = _Kinds({"C0": "KRaw", "C1": "KH1", "C2": "KH2", "C3": "KCut", "U": "KH1", "Cr": None, "Cf": None})
 
 
 def base(tok):
@@ -22,6 +23,8 @@ FULL = ["R", "T", "T", "T"]          # one complete exchange on a connection
 
 
 def ev_term(tok, transport):
+    if tok in ("Cr", "Cf"):
+        return "EConnectDead"
     if tok in KINDS:
         return f"EConnect {KINDS[tok]}"
     if tok == "X":
